@@ -320,21 +320,34 @@ def read_scsv(file):
         ]
         missingstr = schema["missing"]
         fillvals = [d.get("fill", _SCSV_DEFAULT_FILL) for d in schema["fields"]]
-        return Columns._make(
-            [
-                tuple(
-                    map(
-                        ft.partial(
-                            _parse_scsv_cell, f, missingstr=missingstr, fillval=fill
-                        ),
-                        x,
+        try:
+            return Columns._make(
+                [
+                    tuple(
+                        map(
+                            ft.partial(
+                                _parse_scsv_cell,
+                                f,
+                                missingstr=missingstr,
+                                fillval=fill,
+                            ),
+                            x,
+                        )
                     )
-                )
-                for f, fill, x in zip(
-                    coltypes, fillvals, zip(*list(reader), strict=True), strict=True
-                )
-            ]
-        )
+                    for f, fill, x in zip(
+                        coltypes,
+                        fillvals,
+                        zip(*list(reader), strict=True),
+                        strict=True,
+                    )
+                ]
+            )
+        except ValueError:
+            raise _err.SCSVError(
+                f"CSV data in '{file}' does not match the schema:"
+                + " rows of unequal length, wrong number of columns"
+                + " or a cell that cannot be parsed as its declared type."
+            ) from None
 
 
 def _yaml_quoted(value):
